@@ -196,8 +196,8 @@ func (p ICMP6RouterSolicitation) Checksum() int { return int(binary.BigEndian.Ui
 func (p ICMP6RouterSolicitation) SourceLLA() net.HardwareAddr {
 	// RS options may containg a single SourceLLA option
 	// len is therefore: 26 = 4 bytes header + 4 bytes reserved + 2 bytes option header + 16 IP bytes SourceLLA option
-	if len(p) >= 26 && p[8] == 1 && p[9] == 3 { // type == SourceLLA & 24 bytes len (3 * 8bytes)
-		return net.HardwareAddr(p[10 : 10+16])
+	if len(p) >= 16 && p[8] == 1 && p[9] == 1 { // type == SourceLLA & 8 bytes len (RFC 4861 4.6.1)
+		return net.HardwareAddr(p[10 : 10+6])
 	}
 	return nil
 }
